@@ -321,7 +321,9 @@ theorem fr_jacLoop (P : Prop) (L : Nat) (sc : Script) (cfg : Cfg) (w : Wrap) (x 
     simp only [jacLoop]
     split
     · exact hab.trans h1
+    · exact hab.trans h1
     · split
+      · exact (hab.trans h1).trans h2
       · exact (hab.trans h1).trans h2
       · split
         · exact ((hab.trans h1).trans h2).trans (fr_jacLoop P L sc cfg w x m js _ hw3)
@@ -361,6 +363,7 @@ theorem fr_jacNumeric (P : Prop) (L : Nat) (sc : Script) (cfg : Cfg) (w : Wrap) 
     dsimp only
     split
     · exact (h0.trans hc).trans hi
+    · exact (h0.trans hc).trans hi
     · exact ((h0.trans hc).trans hi).trans (fr_jacLoop P L sc cfg w x _ _ _ hw2)
 
 theorem fr_jacTorch (P : Prop) (L : Nat) (sc : Script) (cfg : Cfg) (w : Wrap) (b : Bind) (s : St)
@@ -375,6 +378,7 @@ theorem fr_jacTorch (P : Prop) (L : Nat) (sc : Script) (cfg : Cfg) (w : Wrap) (b
     have hw2 := hw1.of_SF hi.1
     dsimp only
     split
+    · exact h0.trans hi
     · exact h0.trans hi
     · exact (h0.trans hi).trans (fr_jacNumeric P L sc cfg w b _ hw2)
 
@@ -870,6 +874,18 @@ example :
       [[("w", some (.cell ⟨.t32g, [2], [1000000, 2000000]⟩)), ("b", some (.cell ⟨.t32g, [], [500000]⟩))]] ∧
     viewN r.1 "w" = some (.cell ⟨.t32, [2], [1000000, 2000000]⟩) ∧
     viewN r.1 "b" = some (.cell ⟨.pyfloat, [], [500000]⟩) := by
+  decide
+
+/-- an interrupt (a BaseException that is not an Exception) ends the torch Jacobian probe: the
+    `except Exception` fallback is not taken (one evaluation; an ordinary raise gives two), `w` is a
+    gradient-tracking tensor during the evaluation and what it was afterwards -/
+example :
+    let s : St := { store := [("w", .ref 0)], heap := [⟨.t32, [2], [1000000, 2000000]⟩] }
+    let r := runForm .repaired .torch (.multiJac ["w"]) (fun _ _ => .interrupt) ⟨["w"], none⟩ s
+    let r' := runForm .repaired .torch (.multiJac ["w"]) (fun _ _ => .raise) ⟨["w"], none⟩ s
+    r.2 = false ∧ r.1.calls = 1 ∧ r'.1.calls = 2 ∧
+    r.1.log.map (·.globals) = [[("w", some (.cell ⟨.t32g, [2], [1000000, 2000000]⟩))]] ∧
+    viewN r.1 "w" = some (.cell ⟨.t32, [2], [1000000, 2000000]⟩) := by
   decide
 
 end Klong.C07
